@@ -623,7 +623,7 @@ impl Color {
         let c = self.to_lch();
 
         // the desaturation step is only needed to correct minor rounding errors.
-        let mut gray = Color::from_lch(c.l, 0.0, 0.0, 1.0).desaturate(1.0);
+        let mut gray = Color::from_lch(c.l, 0.0, 0.0, self.alpha).desaturate(1.0);
 
         // Restore the hue value (does not alter the color, but makes it able to add saturation
         // again)
